@@ -238,6 +238,37 @@ impl<'a> Suite<'a> {
 			let site = panic_site(out.panic_msg.as_deref().unwrap_or(""));
 			self.rep.violate(&format!("C10:panic:csr:{}", site), "CSR generation panics on constructible parameters", out.replay());
 		}
+		#[cfg(not(feature = "nocrypto"))]
+		if let (Some(der), true) = (&out.der, self.prop == "C07") {
+			// parse the generated request back (within what the parser documents as supported)
+			let supported = p.custom.is_empty() && p.eku.iter().all(|e| !matches!(e, ExtendedKeyUsagePurpose::Other(_)));
+			if supported {
+				let key = self.ctx.key(alg);
+				match std::panic::catch_unwind(std::panic::AssertUnwindSafe(|| CertificateSigningRequestParams::from_der(&der.clone().into()))) {
+					Ok(Ok(r)) => {
+						let got = PCert::of_real(&r.params);
+						let set_ku = |v: &Vec<KeyUsagePurpose>| ALL_KU.iter().filter(|k| v.contains(k)).map(|k| ku_name(k)).collect::<Vec<_>>();
+						let set_eku = |v: &Vec<ExtendedKeyUsagePurpose>| {
+							let mut x: Vec<String> = v.iter().map(eku_sexp).collect();
+							x.sort();
+							x.dedup();
+							x
+						};
+						let same = p.dn.real().map(|d| dn_of_real(&d)) == Some(got.dn.clone())
+							&& p.san == got.san && set_ku(&p.ku) == set_ku(&got.ku) && set_eku(&p.eku) == set_eku(&got.eku)
+							&& r.public_key.der_bytes() == key.public_key_raw() && r.public_key.algorithm() == key.algorithm();
+						self.rep.count("csr_round_trips");
+						if !same {
+							self.rep.violate(&format!("C07:round-trip:{}", alg), "parsing a generated request back does not return the same subject / SANs / key usages / EKUs / public key / algorithm", format!("{}
+parsed: {} {}", out.replay(), got.sexp(), key_sexp(&r.public_key)));
+						}
+					},
+					Ok(Err(e)) => self.rep.violate(&format!("C07:round-trip-refused:{}", alg), "a supported request generated by rcgen is refused by its own parser", format!("{}
+error: {:?}", out.replay(), e)),
+					Err(_) => self.rep.violate("C07:round-trip-panics", "parsing a generated request panics", out.replay()),
+				}
+			}
+		}
 		if let Some(der) = &out.der {
 			let key = self.ctx.key(alg);
 			let line = format!("spec-csr {} {} {} {}", p.sexp(), key_sexp(&*key), list(&attrs.iter().map(|a| a.sexp()).collect::<Vec<_>>()), hex(der));
